@@ -575,6 +575,9 @@ func (d *Discharger) discharge(o *Obligation) {
 	}
 	r := solve(d.workdir, id, text, d.quickS, d.fullS)
 	o.Result, o.Solver, o.TimeS = r.Result, r.Solver, r.TimeS
+	if d.keep {
+		o.Query = text
+	}
 	if r.Result != "unsat" {
 		o.Query = text
 		o.Model = map[string]string{"solver_output": truncate(r.Output, 4000)}
